@@ -15,6 +15,8 @@ import (
 	"testing"
 	"time"
 
+	eth2v1 "github.com/attestantio/go-eth2-client/api/v1"
+	"github.com/attestantio/go-eth2-client/spec/bellatrix"
 	eth2p0 "github.com/attestantio/go-eth2-client/spec/phase0"
 
 	"github.com/obolnetwork/charon/cluster"
@@ -68,6 +70,17 @@ type MutateReport struct {
 	RoundTrips  int                `json:"round_trips"`
 	RoundTripNG []string           `json:"round_trip_failures"`
 	Baselines   []string           `json:"baseline_failures"`
+}
+
+// lengthAltering: alterations that change the length of a byte field or of a list.
+func lengthAltering(alt string) bool {
+	switch alt {
+	case "hex.append00", "hex.prepend00", "hex.dropfirst", "hex.droplast", "hex.empty", "hex.0x",
+		"b64.append00", "b64.prepend00", "b64.droplast", "b64.empty", "b64.set01", "delete", "str.empty",
+		"arr.droplast", "arr.duplast", "arr.empty", "arr.addempty", "str.set0x00":
+		return true
+	}
+	return false
 }
 
 var reAddrLeaf = regexp.MustCompile(`(^|\.)(address|fee_recipient_address|withdrawal_address)$`)
@@ -235,8 +248,15 @@ func (c *campaign) run(src Source, doc []byte, isLock, withSigs bool) {
 			c.rep.Coverage[k][cl]++
 		}
 		if cl == "panic" {
-			c.rep.Panics = append(c.rep.Panics, Survivor{Source: src, Mutation: m, Class: "panic", Orig: detail})
+			c.rep.Panics = append(c.rep.Panics, Survivor{Source: src, Mutation: m, Class: "panic", Key: "panic:verify:" + src.Version + ":" + pat + ":" + m.Alt, Orig: detail})
 			return
+		}
+		// length-changing alterations: the signature checks must not panic even when the hashes already failed
+		if (cl == "hashes" || cl == "signatures") && lengthAltering(m.Alt) {
+			var desc string
+			if fin, _ := withTimeout(caseTimeout, "panic probe", func() { desc = panicProbe(mut, isLock) }); fin && desc != "" {
+				c.rep.Panics = append(c.rep.Panics, Survivor{Source: src, Mutation: m, Class: "panic", Key: "panic:verify:" + src.Version + ":" + pat + ":" + m.Alt, Orig: desc})
+			}
 		}
 		if cl != "ok" {
 			return
@@ -548,8 +568,84 @@ type Shape struct {
 	Signed     bool   `json:"signed,omitempty"`
 	// CreatorSigned: Definition is a ready-made definition signed by its creator only (operators
 	// without address), built in-package by harness/overlay/cluster/zz_verif_c12_test.go.
+	// Testnet: custom network given with the --testnet-* flags. Network is then what --network carries
+	// ("" = `--network=`), OmitNetwork leaves the flag out (the command defaults it to mainnet).
+	Testnet       *Testnet        `json:"testnet,omitempty"`
+	OmitNetwork   bool            `json:"omit_network,omitempty"`
 	CreatorSigned bool            `json:"creator_signed,omitempty"`
 	Definition    json.RawMessage `json:"definition,omitempty"`
+}
+
+// Testnet is a custom test network (eth2util.Network).
+type Testnet struct {
+	Name             string `json:"name"`
+	ForkVersion      string `json:"fork_version"`
+	ChainID          uint64 `json:"chain_id"`
+	GenesisTimestamp int64  `json:"genesis_timestamp"`
+}
+
+func (tn *Testnet) network() eth2util.Network {
+	if tn == nil {
+		return eth2util.Network{}
+	}
+	return eth2util.Network{Name: tn.Name, GenesisForkVersionHex: tn.ForkVersion, ChainID: tn.ChainID, GenesisTimestamp: tn.GenesisTimestamp}
+}
+
+// independent re-computation of the consensus-spec signing roots from the LOCK's fork version
+// (nothing here looks at the network name the command used)
+
+func computeDomain(domainType [4]byte, forkVersion []byte) ([32]byte, error) {
+	var fv eth2p0.Version
+	if len(forkVersion) != len(fv) {
+		return [32]byte{}, fmt.Errorf("fork version of %d bytes", len(forkVersion))
+	}
+	copy(fv[:], forkVersion)
+	fd := eth2p0.ForkData{CurrentVersion: fv} // genesis validators root = zero
+	r, err := fd.HashTreeRoot()
+	if err != nil {
+		return [32]byte{}, err
+	}
+	var d [32]byte
+	copy(d[:4], domainType[:])
+	copy(d[4:], r[:28])
+	return d, nil
+}
+
+func signingRoot(objRoot [32]byte, domain [32]byte) ([32]byte, error) {
+	sd := eth2p0.SigningData{ObjectRoot: objRoot, Domain: domain}
+	return sd.HashTreeRoot()
+}
+
+func depositSigningRoot(pub, wc []byte, amount uint64, forkVersion []byte) ([32]byte, error) {
+	if len(pub) != 48 || len(wc) != 32 {
+		return [32]byte{}, fmt.Errorf("deposit pubkey/credentials of %d/%d bytes", len(pub), len(wc))
+	}
+	msg := eth2p0.DepositMessage{PublicKey: eth2p0.BLSPubKey(pub), WithdrawalCredentials: wc, Amount: eth2p0.Gwei(amount)}
+	mr, err := msg.HashTreeRoot()
+	if err != nil {
+		return [32]byte{}, err
+	}
+	dom, err := computeDomain([4]byte{0x03, 0, 0, 0}, forkVersion) // DOMAIN_DEPOSIT
+	if err != nil {
+		return [32]byte{}, err
+	}
+	return signingRoot(mr, dom)
+}
+
+func registrationSigningRoot(reg cluster.Registration, forkVersion []byte) ([32]byte, error) {
+	if len(reg.FeeRecipient) != 20 || len(reg.PubKey) != 48 {
+		return [32]byte{}, fmt.Errorf("registration fee recipient/pubkey of %d/%d bytes", len(reg.FeeRecipient), len(reg.PubKey))
+	}
+	m := eth2v1.ValidatorRegistration{FeeRecipient: bellatrix.ExecutionAddress(reg.FeeRecipient), GasLimit: uint64(reg.GasLimit), Timestamp: reg.Timestamp, Pubkey: eth2p0.BLSPubKey(reg.PubKey)}
+	mr, err := m.HashTreeRoot()
+	if err != nil {
+		return [32]byte{}, err
+	}
+	dom, err := computeDomain([4]byte{0x00, 0, 0, 0x01}, forkVersion) // DOMAIN_APPLICATION_BUILDER
+	if err != nil {
+		return [32]byte{}, err
+	}
+	return signingRoot(mr, dom)
 }
 
 func (s Shape) String() string {
@@ -600,10 +696,14 @@ func buildDefinition(t *testing.T, s Shape) cluster.Definition {
 		th = cluster.Threshold(s.Nodes)
 	}
 	fv, err := eth2util.NetworkToForkVersion(s.Network)
-	if err != nil {
+	if err != nil && s.Testnet == nil {
 		t.Fatal(err)
 	}
 	fvb, _ := eth2util.NetworkToForkVersionBytes(s.Network)
+	if s.Testnet != nil {
+		fv = s.Testnet.ForkVersion
+		fvb, _ = hex.DecodeString(strings.TrimPrefix(fv, "0x"))
+	}
 	vi := vnum(s.DefVersion)
 	gas := uint(0)
 	if vi >= vnum("v1.10.0") {
@@ -641,7 +741,7 @@ func buildDefinition(t *testing.T, s Shape) cluster.Definition {
 }
 
 // createFromDefinition writes def to a file and runs `charon create cluster --definition-file`.
-func createFromDefinition(bin, dir string, def cluster.Definition) (string, []byte, error) {
+func createFromDefinition(bin, dir string, def cluster.Definition, tn *Testnet) (string, []byte, error) {
 	b, err := json.MarshalIndent(def, "", " ")
 	if err != nil {
 		return "", nil, err
@@ -653,7 +753,12 @@ func createFromDefinition(bin, dir string, def cluster.Definition) (string, []by
 	if err := os.WriteFile(fn, b, 0o600); err != nil {
 		return "", b, err
 	}
-	out, err := runCmd(90*time.Second, append(os.Environ(), "HOME="+dir), bin, "create", "cluster", "--insecure-keys", "--cluster-dir="+dir, "--definition-file="+fn)
+	args := []string{"create", "cluster", "--insecure-keys", "--cluster-dir=" + dir, "--definition-file=" + fn}
+	if tn != nil {
+		args = append(args, "--testnet-name="+tn.Name, "--testnet-fork-version="+tn.ForkVersion,
+			fmt.Sprintf("--testnet-chain-id=%d", tn.ChainID), fmt.Sprintf("--testnet-genesis-timestamp=%d", tn.GenesisTimestamp))
+	}
+	out, err := runCmd(90*time.Second, append(os.Environ(), "HOME="+dir), bin, args...)
 	return out, b, err
 }
 
@@ -661,8 +766,15 @@ func createFromDefinition(bin, dir string, def cluster.Definition) (string, []by
 func createCluster(bin, dir string, s Shape) (string, error) {
 	fee, wd := shapeAddrs(s)
 	args := []string{"create", "cluster", "--insecure-keys", "--cluster-dir=" + dir, "--name=verif",
-		fmt.Sprintf("--nodes=%d", s.Nodes), fmt.Sprintf("--num-validators=%d", s.Validators), "--network=" + s.Network,
+		fmt.Sprintf("--nodes=%d", s.Nodes), fmt.Sprintf("--num-validators=%d", s.Validators),
 		"--fee-recipient-addresses=" + strings.Join(fee, ","), "--withdrawal-addresses=" + strings.Join(wd, ",")}
+	if !s.OmitNetwork {
+		args = append(args, "--network="+s.Network)
+	}
+	if tn := s.Testnet; tn != nil {
+		args = append(args, "--testnet-name="+tn.Name, "--testnet-fork-version="+tn.ForkVersion,
+			fmt.Sprintf("--testnet-chain-id=%d", tn.ChainID), fmt.Sprintf("--testnet-genesis-timestamp=%d", tn.GenesisTimestamp))
+	}
 	if s.Threshold != 0 {
 		args = append(args, fmt.Sprintf("--threshold=%d", s.Threshold))
 	}
@@ -713,6 +825,9 @@ func checkShape(t *testing.T, bin string, s Shape, exhaustive bool, rnd func(int
 	failf := func(format string, a ...any) { res.Failures = append(res.Failures, fmt.Sprintf(format, a...)) }
 	ok := func() { res.Checks++ }
 	dir := t.TempDir()
+	if s.Testnet != nil {
+		eth2util.AddTestNetwork(s.Testnet.network()) // so that this process can verify the lock (chain id lookup)
+	}
 	fee, wd := validatorAddrs(s)
 	var inDef *cluster.Definition
 	if s.DefFile {
@@ -726,7 +841,7 @@ func checkShape(t *testing.T, bin string, s Shape, exhaustive bool, rnd func(int
 			def = buildDefinition(t, s)
 		}
 		inDef = &def
-		out, raw, err := createFromDefinition(bin, dir, def)
+		out, raw, err := createFromDefinition(bin, dir, def, s.Testnet)
 		res.InputDefinition = raw
 		if err != nil && s.Signed {
 			// A definition carrying operator addresses / signatures cannot be turned into a valid lock by
@@ -787,6 +902,9 @@ func checkShape(t *testing.T, bin string, s Shape, exhaustive bool, rnd func(int
 	}
 	ok()
 	fv, _ := eth2util.NetworkToForkVersionBytes(s.Network)
+	if s.Testnet != nil { // the custom test network takes precedence over --network
+		fv, _ = hex.DecodeString(strings.TrimPrefix(s.Testnet.ForkVersion, "0x"))
+	}
 	if !bytes.Equal(lock.ForkVersion, fv) {
 		failf("fork version %x, want %x", lock.ForkVersion, fv)
 	}
@@ -862,20 +980,27 @@ func checkShape(t *testing.T, bin string, s Shape, exhaustive bool, rnd func(int
 	if len(wantAmounts) > 0 {
 		amounts = deposit.DedupAmounts(append([]eth2p0.Gwei(nil), wantAmounts...))
 	}
+	lockNetwork, err := eth2util.ForkVersionToNetwork(lock.ForkVersion)
+	if err != nil {
+		failf("the lock's fork version %x is no known network: %v", lock.ForkVersion, err)
+	}
 	verifyDD := func(where string, pub, wc []byte, amount uint64, sig []byte, vIdx int) {
 		if !bytes.Equal(pub, lock.Validators[vIdx].PubKey) {
 			failf("%s: deposit pubkey is not validator %d's key", where, vIdx)
 		}
 		w := wd[vIdx]
-		msg, err := deposit.NewMessage(eth2p0.BLSPubKey(pub), w, eth2p0.Gwei(amount), compounding)
-		if err != nil {
-			failf("%s: %v", where, err)
-			return
+		wantWC := make([]byte, 32)
+		wantWC[0] = 0x01
+		if compounding {
+			wantWC[0] = 0x02
 		}
-		if !bytes.Equal(msg.WithdrawalCredentials, wc) {
+		ab, _ := hex.DecodeString(strings.TrimPrefix(w, "0x"))
+		copy(wantWC[12:], ab)
+		if !bytes.Equal(wantWC, wc) {
 			failf("%s: withdrawal credentials %x do not derive from the withdrawal address %s", where, wc, w)
 		}
-		root, err := deposit.GetMessageSigningRoot(msg, s.Network)
+		// signing root recomputed from the LOCK's fork version: compute_domain(DOMAIN_DEPOSIT, fork_version, zero root)
+		root, err := depositSigningRoot(pub, wc, amount, lock.ForkVersion)
 		if err != nil {
 			failf("%s: %v", where, err)
 			return
@@ -885,7 +1010,7 @@ func checkShape(t *testing.T, bin string, s Shape, exhaustive bool, rnd func(int
 			return
 		}
 		if err := tbls.Verify(tbls.PublicKey(pub), root[:], tbls.Signature(sig)); err != nil {
-			failf("%s: deposit signature does not verify: %v", where, err)
+			failf("%s: deposit signature does not verify for the lock's validator key under the deposit domain of the lock's fork version %x: %v", where, lock.ForkVersion, err)
 		}
 		ok()
 	}
@@ -921,6 +1046,28 @@ func checkShape(t *testing.T, bin string, s Shape, exhaustive bool, rnd func(int
 			failf("node%d deposit files: %v", i, err)
 			continue
 		}
+		// the files' own fork_version / network_name must be the lock's
+		files, _ := filepath.Glob(filepath.Join(dir, fmt.Sprintf("node%d", i), "deposit-data*.json"))
+		for _, fn := range files {
+			raw, _ := os.ReadFile(fn)
+			var ents []struct {
+				ForkVersion string `json:"fork_version"`
+				NetworkName string `json:"network_name"`
+			}
+			if err := json.Unmarshal(raw, &ents); err != nil {
+				failf("node%d %s: %v", i, filepath.Base(fn), err)
+				continue
+			}
+			for _, e := range ents {
+				if e.ForkVersion != hex.EncodeToString(lock.ForkVersion) {
+					failf("node%d %s: fork_version %s is not the lock's fork version %x", i, filepath.Base(fn), e.ForkVersion, lock.ForkVersion)
+				}
+				if e.NetworkName != lockNetwork {
+					failf("node%d %s: network_name %q is not the lock's network %q", i, filepath.Base(fn), e.NetworkName, lockNetwork)
+				}
+			}
+			ok()
+		}
 		n := 0
 		for _, set := range sets {
 			for _, dd := range set {
@@ -952,6 +1099,13 @@ func checkShape(t *testing.T, bin string, s Shape, exhaustive bool, rnd func(int
 		}
 		if _, err := v.Eth2Registration(); err != nil {
 			failf("validator %d: Eth2Registration: %v", j, err)
+		}
+		if rr, err := registrationSigningRoot(reg.Message, lock.ForkVersion); err != nil {
+			failf("validator %d: registration: %v", j, err)
+		} else if len(reg.Signature) != 96 {
+			failf("validator %d: registration signature of %d bytes", j, len(reg.Signature))
+		} else if err := tbls.Verify(tbls.PublicKey(v.PubKey), rr[:], tbls.Signature(reg.Signature)); err != nil {
+			failf("validator %d: registration signature does not verify under the builder domain of the lock's fork version %x: %v", j, lock.ForkVersion, err)
 		}
 		if !strings.EqualFold(lock.ValidatorAddresses[j].FeeRecipientAddress, f) {
 			failf("validator %d: definition fee recipient %s, want %s", j, lock.ValidatorAddresses[j].FeeRecipientAddress, f)
@@ -987,7 +1141,7 @@ func checkShape(t *testing.T, bin string, s Shape, exhaustive bool, rnd func(int
 		}
 		var err error
 		if fin, p := withTimeout(90*time.Second, fmt.Sprintf("combine of nodes %v (%s)", sub, s), func() {
-			err = combine.Combine(context.Background(), in, outDir, true, false, "", eth2util.Network{}, combine.WithInsecureKeysForT(t))
+			err = combine.Combine(context.Background(), in, outDir, true, false, "", s.Testnet.network(), combine.WithInsecureKeysForT(t))
 		}); !fin || p != nil {
 			failf("combine of nodes %v did not finish (stalled or panicked: %v)", sub, p)
 			continue
@@ -1023,7 +1177,7 @@ func checkShape(t *testing.T, bin string, s Shape, exhaustive bool, rnd func(int
 		}
 		var err error
 		fin, _ := withTimeout(90*time.Second, "combine below threshold", func() {
-			err = combine.Combine(context.Background(), in, outDir, true, false, "", eth2util.Network{}, combine.WithInsecureKeysForT(t))
+			err = combine.Combine(context.Background(), in, outDir, true, false, "", s.Testnet.network(), combine.WithInsecureKeysForT(t))
 		})
 		if fin && err == nil {
 			failf("combine with %d < threshold %d shares succeeded", t0-1, t0)
@@ -1102,6 +1256,14 @@ func shapes(thorough bool, rnd func(int) int) []Shape {
 		{Nodes: 7, Threshold: 5, Validators: 1, Network: "chiado", Amounts: []int{32, 2016}, Compounding: true},
 		{Nodes: 10, Threshold: 0, Validators: 1, Network: "goerli"},
 	}
+	// custom test network given with --testnet-*: alone (--network defaults to mainnet), with an explicit
+	// other --network, and with an empty --network
+	tn := &Testnet{Name: "veriftestnet", ForkVersion: "0x12345678", ChainID: 424242, GenesisTimestamp: 1700000000}
+	quick = append(quick,
+		Shape{Nodes: 3, Threshold: 2, Validators: 1, Testnet: tn, OmitNetwork: true, Network: "mainnet"},
+		Shape{Nodes: 4, Threshold: 3, Validators: 2, Testnet: tn, Network: "sepolia", Amounts: []int{16, 16}, MultiAddr: true},
+		Shape{Nodes: 3, Threshold: 0, Validators: 1, Testnet: tn, Network: "", Amounts: []int{32}},
+	)
 	// create cluster FROM A DEFINITION FILE (insecure keys are refused on mainnet/gnosis): deposit amount
 	// lists in every order and with repeats, per-validator addresses, old versions, signed definitions
 	quick = append(quick,
@@ -1119,6 +1281,15 @@ func shapes(thorough bool, rnd func(int) int) []Shape {
 		return quick
 	}
 	out := append([]Shape{}, quick...)
+	tn2 := &Testnet{Name: "verifnet2", ForkVersion: "0x00abcdef", ChainID: 777, GenesisTimestamp: 1650000000}
+	out = append(out,
+		Shape{Nodes: 5, Threshold: 4, Validators: 2, Testnet: tn2, OmitNetwork: true, Network: "mainnet", Amounts: []int{8, 24}, MultiAddr: true},
+		Shape{Nodes: 6, Threshold: 0, Validators: 1, Testnet: tn2, Network: "gnosis", Amounts: []int{32, 2016}, Compounding: true},
+		Shape{Nodes: 3, Threshold: 3, Validators: 3, Testnet: tn, Network: "hoodi"},
+		Shape{Nodes: 4, Threshold: 2, Validators: 1, Testnet: tn2, Network: "", MultiAddr: true},
+		// (a definition file of a custom test network is refused by the command even with the --testnet-*
+		// flags: loadDefinition verifies the definition before validateCreateConfig registers the network)
+	)
 	defAmounts := [][]int{nil, {32}, {1, 31}, {31, 1}, {32, 1}, {16, 16}, {16, 8, 8}, {8, 16, 8}, {8, 8, 16}, {8, 8, 8, 8}, {30, 1, 1}, {1, 30, 1}, {32, 32}, {4, 3, 2, 1, 22}}
 	defNets := []string{"hoodi", "sepolia", "goerli", "chiado"}
 	for i, am := range defAmounts {
